@@ -199,6 +199,10 @@ def r3_writers_complete(ctx, rule):
     ok = True
     for lp in (x for x in walk_local(fn) if isinstance(x, ast.For)):
         it = U(lp.iter)
+        if isinstance(lp.iter, ast.Call) and call_name(lp.iter) == 'enumerate' and lp.iter.args and U(lp.iter.args[0]) == 'omen_trainer.ln_lookup':
+            it = 'enumerate(omen_trainer.ln_lookup)'        # whatever number the progress counter starts at
+        elif it == 'omen_trainer.ln_lookup':
+            it = 'enumerate(omen_trainer.ln_lookup)'
         if it in ('omen_trainer.grammar.items()', "data['next_letter'].items()", 'enumerate(omen_trainer.ln_lookup)'):
             n += 1
             extra = [s for s in walk_stmts(lp.body) if isinstance(s, (ast.If, ast.Continue, ast.Break))]
